@@ -5,7 +5,7 @@ from vstat.loader import AnalysisError
 from vstat.terms import CMP, builder, show, SELF, NONE, G, alts, walk, mentions, phi, subst, strip_none
 from vstat.guards import path_conditions
 from vstat.cfg import cfg_of
-from vstat.sigs import bind
+from vstat.sigs import bind, bind_arange
 from vstat import algebra
 from .ctor import ctor_stores
 
@@ -220,8 +220,9 @@ def compute(prog, rep):
                   "x, y are the columns of the supplied / drawn sample", f"the projected points must be the supplied sample or the one drawn from the model; found {show(sample_t)[:120]}")
     # angular step and grid
     step_t = ("bin", "/", ("bin", "*", ("attr", SELF, "deg_step"), G("numpy.pi")), ("const", 180))
-    if va[0] == "call" and va[1] == G("numpy.arange") and len(va[2]) == 3:
-        start, stop, step = va[2]
+    ar_ = bind_arange(va)
+    if ar_ is not None and not (len(va[2]) == 1 and not va[3]):
+        start, stop, step = ar_["start"], ar_["stop"], ar_["step"]
         oks = algebra.same(step, step_t) or algebra.same(step, ("neg", step_t))
         rep.check(oks, "C03.step", f"{q}:step", fn.where(), "successive angles differ by deg_step*pi/180",
                   f"successive edge normals must advance by deg_step*pi/180; found step {show(step)[:100]}")
